@@ -6,6 +6,7 @@ import (
 	"fmt"
 	"os"
 	"strings"
+	"time"
 
 	"github.com/ohler55/slip"
 	"github.com/ohler55/slip/pp"
@@ -151,6 +152,28 @@ func observeData(v slip.Object, margins []int) (term string, d dataObs, ok bool)
 	return term, d, true
 }
 
+// spread interleaves the cases after position n (sessions) with the first n (values), keeping both orders.
+func spread(terms []string, descs []any, n int) ([]string, []any) {
+	if n <= 0 || n >= len(terms) {
+		return terms, descs
+	}
+	a, b := n, len(terms)-n
+	var ot []string
+	var od []any
+	i, j := 0, 0
+	for i < a || j < b {
+		// keep j/b close to i/a
+		if j < b && (i >= a || j*a <= i*b) {
+			ot, od = append(ot, terms[n+j]), append(od, descs[n+j])
+			j++
+		} else {
+			ot, od = append(ot, terms[i]), append(od, descs[i])
+			i++
+		}
+	}
+	return ot, od
+}
+
 // normForm replaces empty slip.List values inside a form by nil, which is what printing and reading the form does
 // (an empty list and nil are the same Lisp object; Go code that type-switches on slip.List tells them apart).
 func normForm(o slip.Object) slip.Object {
@@ -181,6 +204,7 @@ func Run(ctx *common.Ctx) {
 	if ctx.Thorough() {
 		nvalues = 8000
 	}
+	t0 := time.Now()
 	var terms []string
 	var descs []any
 	distinct := map[string]bool{}
@@ -215,6 +239,9 @@ func Run(ctx *common.Ctx) {
 		panic(err)
 	}
 	ctx.Meta.Extra = map[string]any{"empty_session_snapshot_is_fixed_point": base.fixpoint, "empty_session_snapshot_loads": base.loadOK}
+	if os.Getenv("VERIF_C19_TIMING") != "" {
+		fmt.Fprintln(os.Stderr, "data part done", time.Since(t0))
+	}
 	nmod, next := 140, 40
 	if ctx.Thorough() {
 		nmod, next = 1500, 400
@@ -222,7 +249,11 @@ func Run(ctx *common.Ctx) {
 	for i := 0; i < nmod; i++ {
 		wild := i%2 == 1
 		forms, probes, wildText := genSession(rng, ctx.Hist, wild, true)
+		ts := time.Now()
 		o, err := runSession(dir, 100+i, base, forms, probes, wild)
+		if os.Getenv("VERIF_C19_TIMING") != "" && time.Since(ts) > 500*time.Millisecond {
+			fmt.Fprintln(os.Stderr, "slow session", time.Since(ts), forms, o.Define, o.ProbeA, o.ProbeB)
+		}
 		if err != nil {
 			ctx.Violate("the worker process failed on a session", forms, err.Error(), nil)
 			continue
@@ -251,6 +282,9 @@ func Run(ctx *common.Ctx) {
 			ctx.Sample(o)
 		}
 	}
+	if os.Getenv("VERIF_C19_TIMING") != "" {
+		fmt.Fprintln(os.Stderr, "modelled sessions done", time.Since(t0))
+	}
 	// sessions with the kinds of definition the Coq model does not cover (packages, flavors, generic functions):
 	// generated inside the region where the unchanged code restores them; judged here, on the implementation alone
 	for i := 0; i < next; i++ {
@@ -274,10 +308,15 @@ func Run(ctx *common.Ctx) {
 			ctx.Violate("a session of definitions inside the guard is not restored by its snapshot", o.Forms, o, "same text, same behaviour")
 		}
 	}
+	if os.Getenv("VERIF_C19_TIMING") != "" {
+		fmt.Fprintln(os.Stderr, "sessions done", time.Since(t0))
+	}
 	ctx.Meta.DistinctNontrivial = len(distinct)
 	ctx.Meta.Rule = "placeholder"
+	// spread the (more expensive) session cases evenly over the shards
+	terms, descs = spread(terms, descs, nvalues)
 	header := "From Coq Require Import List String ZArith NArith Bool.\nImport ListNotations.\nFrom C19 Require Import Model Spec Corr.\n"
-	footer := "Definition res := Eval vm_compute in check_all cases.\nPrint res.\nDefinition farquote := Eval vm_compute in far_quote_count cases.\nPrint farquote.\nDefinition sessions := Eval vm_compute in session_count cases.\nPrint sessions.\nDefinition sessions_skipped := Eval vm_compute in session_skipped cases.\nPrint sessions_skipped.\nDefinition gcount := Eval vm_compute in guard_count cases.\nPrint gcount.\nDefinition unmodelled := Eval vm_compute in unmodelled_count cases.\nPrint unmodelled.\n"
+	footer := "Definition res := Eval vm_compute in check_all cases.\nPrint res.\nDefinition gcount := Eval vm_compute in guard_count cases.\nPrint gcount.\n"
 	ctx.WriteShards("cases", header, "case", footer, terms, descs, 16)
 	ctx.ReplayKnownLisp()
 }
